@@ -193,6 +193,10 @@ func verifyOwners(entries []discovery.Entry, allowedOwners []*regexp.Regexp) (re
 		if entry.PathError != nil {
 			continue
 		}
+		if entry.Rule.Error.Err != nil {
+			// This is not a valid rule, it's already reported as a parse error.
+			continue
+		}
 		if entry.Owner == "" {
 			reports = append(reports, reporter.Report{
 				Path:          entry.Path,
